@@ -1,7 +1,14 @@
 #!/bin/bash
 # sweep.sh <seed> <budget seconds per check> [ids...]: thorough tier of every (or the given) check, one after another.
+# Runs against a private worktree of /repo's HEAD, so that temporary changes to /repo's working tree
+# (tools/try_seeded.sh applies and reverts patches there) cannot leak into a long sweep.
 seed=$1; budget=$2; shift 2
 ids=${@:-C01 C02 C03 C04 C05 C07 C10 C11 C12 C13 C14 C15 C17 C27 C31 C32 C35}
+wt=/dev/shm/sweep-repo-$$
+git -C /repo worktree add --detach -f $wt HEAD >/dev/null 2>&1 || { echo "cannot create worktree"; exit 2; }
+trap 'git -C /repo worktree remove --force '$wt' >/dev/null 2>&1; rm -rf '$wt EXIT
+export VERIF_REPO=$wt
+echo "sweep against $(git -C $wt rev-parse --short HEAD) in $wt"
 for id in $ids; do
   echo "=== $id seed=$seed budget=$budget $(date +%T)"
   VERIF_SEED=$seed VERIF_BUDGET=$budget ./verifctl check $id --tier thorough 2>&1 | grep -v "^KNOWN-FINDING" | tail -12 | cut -c1-3000
